@@ -31,8 +31,40 @@ fn check(case: &SemCase, _net0: &Net, f: &F) -> Verdict {
             Ok(n) => n,
             Err(r) => return Verdict::Discard(r),
         };
-        let g = &net.graph;
-        let sym = symbolic_context(&net, &case.context);
+        // optionally: the caller restricted the graph to a subset of its valid colours
+        let restrict_mask = case.extra.get("restrict_colours").and_then(|m| m.as_u64());
+        let restricted;
+        let mut allowed: Option<Vec<bool>> = None;
+        let g = match restrict_mask {
+            Some(mask) if net.num_valid() >= 2 => {
+                let valid = net.valid_colours();
+                let mut keep: Vec<bool> = vec![false; net.num_colours()];
+                for (i, c) in valid.iter().enumerate() {
+                    if (mask >> (i % 64)) & 1 == 1 || i == (mask as usize % valid.len()) {
+                        keep[*c as usize] = true;
+                    }
+                }
+                let keep2 = keep.clone();
+                let all = net.all_states();
+                let sub = net.mk_set(&move |c| if keep2[c as usize] { all } else { 0 }, true);
+                allowed = Some(keep);
+                // same network and symbolic context, smaller unit set (all states x kept colours)
+                restricted = net.graph.restrict(&sub);
+                &restricted
+            }
+            _ => &net.graph,
+        };
+        let mut ctx_sets = case.context.clone();
+        if let Some(keep) = &allowed {
+            for sets in ctx_sets.values_mut() {
+                for (c, s) in sets.iter_mut().enumerate() {
+                    if !keep.get(c).copied().unwrap_or(false) {
+                        *s = 0;
+                    }
+                }
+            }
+        }
+        let sym = symbolic_context(&net, &ctx_sets);
         let (dirty, clean) = if extended {
             (
                 call_ok!("C15", case, "model_check_extended_formula_dirty", model_check_extended_formula_dirty(text, g, &sym)),
@@ -85,7 +117,22 @@ fn check(case: &SemCase, _net0: &Net, f: &F) -> Verdict {
         }
         // same (state, colour) set as the raw result, point-wise
         let reader = PointReader::new(&canonical, &net.param_names);
-        let colours = sample_colours(&net, 64);
+        let mut colours = sample_colours(&net, 64);
+        if let Some(keep) = &allowed {
+            colours.retain(|c| keep[*c as usize]);
+        }
+        // colours the caller excluded must not appear in any result
+        if let Some(keep) = &allowed {
+            for c in net.valid_colours().into_iter().filter(|c| !keep[*c as usize]).take(16) {
+                if net.slice_in(&reader, &clean, c, 0) != 0 || net.slice(&dirty, c, 0) != 0 {
+                    return Verdict::Fail(fail(
+                        "C15:result-outside-restricted-graph",
+                        format!("k={k}: a result contains colour [{}], which is outside the unit set of the (restricted) graph", net.colour_to_string(c)),
+                        case,
+                    ));
+                }
+            }
+        }
         for c in &colours {
             let a = net.slice_in(&reader, &clean, *c, 0);
             for extra in EXTRA_PATTERNS {
@@ -107,6 +154,7 @@ fn check(case: &SemCase, _net0: &Net, f: &F) -> Verdict {
         }
         if k == depth {
             classes = net_classes(&net);
+            classes.push(if allowed.is_some() { "graph-restricted-to-colour-subset".into() } else { "graph-unrestricted".into() });
         }
         sanitised.push((k, clean));
     }
@@ -129,12 +177,12 @@ fn check(case: &SemCase, _net0: &Net, f: &F) -> Verdict {
 }
 
 impl Property for C15 {
-    type Raw = (RawSem, bool);
+    type Raw = (RawSem, bool, Option<u64>);
     fn id(&self) -> &'static str {
         "C15"
     }
     fn rule(&self) -> String {
-        "random network x closed plain or extended formula x k in {depth, depth+1, depth+3}: the sanitised result lives in the canonical symbolic context (same variable names/order as SymbolicAsyncGraph::new(network)), supports set operations with that graph, equals the raw result point-wise (64 colours, 3 settings of extra variables), and is BDD-equal across all k. Non-trivial: nesting depth >= 1 and the result is neither empty nor full for some sampled colour.".into()
+        "random network (in 40 % of the cases the graph is additionally restricted by the caller to a random non-empty subset of its valid colours, as a user would do after an earlier analysis) x closed plain or extended formula x k in {depth, depth+1, depth+3}: the sanitised result lives in the canonical symbolic context (same variable names/order as SymbolicAsyncGraph::new(network)), supports set operations with that graph, equals the raw result point-wise (64 colours, 3 settings of extra variables), and is BDD-equal across all k. Non-trivial: nesting depth >= 1 and the result is neither empty nor full for some sampled colour.".into()
     }
     fn assumptions(&self) -> Vec<String> {
         vec!["same trusted base as C01".into()]
@@ -143,13 +191,23 @@ impl Property for C15 {
         tier.pick(20_000, 600_000)
     }
     fn strategy(&self, tier: Tier) -> BoxedStrategy<Self::Raw> {
-        (raw_sem(tier.pick(3, 4), 1..=1, 5, tier.pick(16, 22)), any::<bool>()).boxed()
+        (
+            raw_sem(tier.pick(3, 4), 1..=1, 5, tier.pick(16, 22)),
+            any::<bool>(),
+            prop::option::weighted(0.4, any::<u64>()),
+        )
+            .boxed()
     }
     fn check_raw(&self, raw: &Self::Raw) -> Verdict {
         let cfg = if raw.1 { FCfg::EXTENDED_WEAK } else { FCfg::PLAIN_WEAK };
         match resolve_sem(&raw.0, cfg) {
             Err(r) => Verdict::Discard(r),
-            Ok((case, fs, net)) => check(&case, &net, &fs[0]),
+            Ok((mut case, fs, net)) => {
+                if let Some(mask) = raw.2 {
+                    case.extra = serde_json::json!({"restrict_colours": mask});
+                }
+                check(&case, &net, &fs[0])
+            }
         }
     }
     fn replay(&self, case: &Value) -> Verdict {
